@@ -4,6 +4,7 @@ import (
 	"fmt"
 	"go/token"
 	"go/types"
+	"sort"
 	"strings"
 
 	"golang.org/x/tools/go/ssa"
@@ -22,7 +23,7 @@ func init() {
 			ruleC04R4(r)
 			ruleC04R5(r)
 			ruleResumeRestoresConnected(r, "R6", "Downstream")
-			ruleC04R8(r)
+			ruleC04R8(r, le)
 			ruleC04R9(r)
 			ruleC04R11(r)
 			ruleC04R13(r)
@@ -563,7 +564,7 @@ func emptyEdgeOf(p *Prog, ifs *ssa.If, fk string) *ssa.BasicBlock {
 
 // ruleC04R8: the flusher may skip sending only when there is nothing to acknowledge at all. A return that leaves the
 // function before the ack is built must lie on the empty edge of a length test of every buffer that feeds the ack.
-func ruleC04R8(r *Run) {
+func ruleC04R8(r *Run, le *LockEngine) {
 	r.Begin("R8", "nothing is left unacknowledged by a skipped flush: in the function that builds the DownstreamChunkAck, every return that is reachable without building the ack is dominated by the empty edge of a length test of each of the three ack buffers", 1)
 	p := r.P
 	ackT := r.named("/message", "DownstreamChunkAck")
@@ -599,6 +600,13 @@ func ruleC04R8(r *Run) {
 				})
 				if !ok {
 					missing = append(missing, buf[strings.LastIndexByte(buf, '.')+1:])
+				}
+			}
+			if len(missing) > 0 {
+				// a dirty flag may stand in for the length tests when it mirrors the buffers
+				if why, isFlag := skipOnMirroringFlag(p, le, fn, b); isFlag {
+					r.Check(fmt.Sprintf("%s skip#%d", name, k), why == "", posOf(p, ret), name, "this return skips the ack on the strength of a flag; the flag does not mirror the ack buffers: "+why)
+					continue
 				}
 			}
 			r.Check(fmt.Sprintf("%s skip#%d", name, k), len(missing) == 0, posOf(p, ret), name, fmt.Sprintf("this return skips the ack; it is not confined to the case where these buffers are empty: %v (their content would stay unacknowledged until something else triggers a flush, or for ever at close)", missing))
@@ -883,4 +891,150 @@ func ruleC04R13(r *Run) {
 		short := s.fk[strings.LastIndexByte(s.fk, '.')+1:]
 		r.Check(fmt.Sprintf("%s empties %s#%d only after packing or before sharing", name, short, per[name+s.fk]), ok, posOf(p, s.ins), name, "the buffer is replaced by an empty one "+why)
 	}
+}
+
+// skipOnMirroringFlag: block b (a return that skips the ack) is dominated by the "not set" edge of a load of an
+// atomic.Bool field of the stream. The flag may stand in for "all ack buffers are empty" when it is false only while
+// they are: (a) every instruction that grows an ack buffer sits in a function that also sets the flag, with the stream
+// mutex held in write mode at both and no release in between (one Lock per function, released by defer or at the end);
+// (b) the flag is cleared only by the function that builds the ack (which empties all buffers, C04.R1), with the mutex
+// held. isFlag is false when b is not guarded by such a flag; why is empty when the flag mirrors the buffers.
+func skipOnMirroringFlag(p *Prog, le *LockEngine, fn *ssa.Function, b *ssa.BasicBlock) (why string, isFlag bool) {
+	flagOf := func(c *ssa.CallCommon, method string) string {
+		if c == nil || !isAtomicBoolMethod(c, method) || len(c.Args) == 0 {
+			return ""
+		}
+		fk := fieldKeyOfAddr(c.Args[0])
+		if !strings.HasPrefix(fk, "/iscp.Downstream.") {
+			return ""
+		}
+		return fk
+	}
+	flag := ""
+	allInstrs(fn, func(ins ssa.Instruction) {
+		ifs, ok := ins.(*ssa.If)
+		if !ok || flag != "" {
+			return
+		}
+		cond, neg := ifs.Cond, false
+		if u, isU := cond.(*ssa.UnOp); isU && u.Op == token.NOT {
+			cond, neg = u.X, true
+		}
+		c, isC := cond.(*ssa.Call)
+		if !isC {
+			return
+		}
+		fk := flagOf(&c.Call, "Load")
+		if fk == "" {
+			return
+		}
+		unset := ifs.Block().Succs[1]
+		if neg {
+			unset = ifs.Block().Succs[0]
+		}
+		if edgeDominates(ifs.Block(), unset, b) {
+			flag = fk
+		}
+	})
+	if flag == "" {
+		return "", false
+	}
+	short := flag[strings.LastIndexByte(flag, '.')+1:]
+	muHeld := func(ins ssa.Instruction) bool {
+		for k, m := range le.HeldAt(ins) {
+			if strings.HasSuffix(k, ".mu") && m == modeW {
+				return true
+			}
+		}
+		return false
+	}
+	var problems []string
+	for _, g := range p.Funcs {
+		if fnPkgPath(g) != modPath+"/iscp" || g.Blocks == nil {
+			continue
+		}
+		var grows, sets, clears []ssa.Instruction
+		locks := 0
+		allInstrs(g, func(ins ssa.Instruction) {
+			switch x := ins.(type) {
+			case *ssa.MapUpdate:
+				if u, isU := x.Map.(*ssa.UnOp); isU {
+					for _, buf := range ackBuffers {
+						if fieldKeyOfAddr(u.X) == buf && !isLocalObject(pathOf(u.X).Prefix(1)) {
+							grows = append(grows, ins)
+						}
+					}
+				}
+			case *ssa.Store:
+				for _, buf := range ackBuffers {
+					if fieldKeyOfAddr(x.Addr) == buf && !isFreshContainer(x.Val) && !isLocalObject(pathOf(x.Addr).Prefix(1)) {
+						grows = append(grows, ins)
+					}
+				}
+			}
+			if cc := instrCall(ins); cc != nil {
+				if op, _ := classifyLockCall(cc); op == opLock {
+					if _, isDefer := ins.(*ssa.Defer); !isDefer {
+						locks++
+					}
+				}
+				if flagOf(cc, "Store") == flag && len(cc.Args) > 1 {
+					if k, isK := cc.Args[1].(*ssa.Const); isK && k.Value != nil {
+						if k.Value.String() == "true" {
+							sets = append(sets, ins)
+						} else {
+							clears = append(clears, ins)
+						}
+					} else {
+						clears = append(clears, ins) // a computed value may be false
+					}
+				}
+			}
+		})
+		for _, gr := range grows {
+			ok := false
+			for _, st := range sets {
+				if muHeld(gr) && muHeld(st) && locks == 1 {
+					ok = true
+				}
+			}
+			if !ok {
+				problems = append(problems, fmt.Sprintf("%s adds to an ack buffer without setting %s in the same critical section (%s)", fnName(g), short, posOf(p, gr)))
+			}
+		}
+		for _, cl := range clears {
+			if topFunc(g) != fn {
+				problems = append(problems, fmt.Sprintf("%s clears %s but does not build the ack (%s)", fnName(g), short, posOf(p, cl)))
+				continue
+			}
+			if !muHeld(cl) {
+				problems = append(problems, fmt.Sprintf("%s is cleared without the stream mutex (%s)", short, posOf(p, cl)))
+				continue
+			}
+			if d, isDefer := cl.(*ssa.Defer); isDefer {
+				// runs at return: before the deferred Unlock only if registered after it
+				unlockFirst := false
+				allInstrs(g, func(y ssa.Instruction) {
+					if dy, isD := y.(*ssa.Defer); isD {
+						if op, _ := classifyLockCall(&dy.Call); op == opUnlock && dominatesInstr(dy, d) {
+							unlockFirst = true
+						}
+					}
+				})
+				if !unlockFirst {
+					problems = append(problems, fmt.Sprintf("the deferred clear of %s runs after the mutex is released (%s)", short, posOf(p, cl)))
+				}
+			}
+		}
+	}
+	sort.Strings(problems)
+	return strings.Join(problems, "; "), true
+}
+
+func isAtomicBoolMethod(c *ssa.CallCommon, method string) bool {
+	o := calleeObj(c)
+	if o == nil || o.Pkg() == nil || o.Pkg().Path() != "sync/atomic" || o.Name() != method {
+		return false
+	}
+	return recvNamed(o) == "Bool"
 }
